@@ -657,8 +657,22 @@ func (e *SpecEnv) seqEq(a, b *SeqV) *Term {
 func (e *SpecEnv) evalBinary(n *ast.BinaryExpr) *SV {
 	switch n.Op {
 	case token.LAND, token.LOR:
-		a, b := e.eval(n.X), e.eval(n.Y)
-		if a == nil || b == nil {
+		a := e.eval(n.X)
+		if a == nil {
+			return nil
+		}
+		// short circuit on a literally decided left operand (the right one need
+		// not be meaningful then, e.g. a local that is not in scope at this site)
+		if a.V != nil && len(a.V.L) == 1 {
+			if n.Op == token.LAND && a.V.L[0].IsFalse() {
+				return svBool(False)
+			}
+			if n.Op == token.LOR && a.V.L[0].IsTrue() {
+				return svBool(True)
+			}
+		}
+		b := e.eval(n.Y)
+		if b == nil {
 			return nil
 		}
 		if n.Op == token.LAND {
@@ -993,6 +1007,7 @@ func (e *SpecEnv) evalCall(n *ast.CallExpr) *SV {
 		if name == "forall" {
 			if e.goal {
 				e.g.releaseFacts(captured)
+				e.g.instantiateHyps([]*Term{k})
 				return svBool(Implies(rng, body.V.L[0])) // skolemised
 			}
 			return svBool(Forall([]*Term{k}, Implies(And(rng, And(captured...)), body.V.L[0])))
@@ -1005,7 +1020,7 @@ func (e *SpecEnv) evalCall(n *ast.CallExpr) *SV {
 		// existential, so offering the range-loop indices in scope as disjuncts
 		// is an equivalence-preserving help for the solver
 		res := Exists([]*Term{k}, And(rng, And(captured...), body.V.L[0]))
-		for _, w := range e.g.rangeIndexTerms() {
+		for _, w := range append(e.g.rangeIndexTerms(), Int(0), Int(1)) {
 			he := e.clone()
 			he.vars[id.Name] = svInt(w)
 			he.vars[id.Name].V.T = types.Typ[types.Int]
@@ -1331,6 +1346,17 @@ func (e *SpecEnv) evalCall(n *ast.CallExpr) *SV {
 			return nil
 		}
 		return svInt(StrLen(a.V.L[0]))
+	case "inscope":
+		// inscope("x"): the local x has a value on every path to this point (decided by the generator)
+		a := arg(0)
+		if a == nil || !a.V.L[0].IsLit() {
+			e.fail("inscope(\"name\") expected")
+			return nil
+		}
+		nm := a.V.L[0].S
+		_, ok1 := e.g.varAt[nm]
+		_, ok2 := e.g.varAt["&"+nm]
+		return svBool(Bool(ok1 || ok2))
 	case "fnname":
 		// fnname(f): the (unqualified) name of the function or method a
 		// function value was made from; unconstrained for unknown values
